@@ -42,7 +42,7 @@ CHECKS = {
    design_ref="DESIGN.md §5 C13"),
 
  "C11": dict(engine="authx", level="model_checking",
-   text="Explicit exploration of server state x access configuration x route x credential form with raw HTTP requests against a real in-process server: states {D1 trusted; D1+D2 trusted; D2 revoked; D2 re-trusted and revoked within one device-log patch} are reached LIVE on the serving process through real client syncs (so the server's in-memory trusted-device set is the one its handlers produced), 16 route/method pairs (account, status, events scan/diff/patch, files compare, file put/get/delete/move, websocket change feed upgrade), 12 credential forms (none, non-base58, wrong length, legacy dotted, unknown key, D2, D1 over other bytes, another account's device, missing / malformed account header, D1 addressed to account B, valid), access configs none / allow A / allow B / deny A / deny B. Oracle: a request that must be refused is never answered 2xx (or 101 for the websocket upgrade) and leaves every file of the server directory and both accounts' sync status unchanged.",
+   text="Explicit exploration of server state x access configuration x route x credential form with raw HTTP requests against a real in-process server: states {D1 trusted; D1+D2 trusted; D2 revoked; D2 re-trusted and revoked within one device-log patch; every device revoked (no trusted device left, D1's own signature must then be refused too)} are reached LIVE on the serving process through real client syncs (so the server's in-memory trusted-device set is the one its handlers produced), 16 route/method pairs (account, status, events scan/diff/patch, files compare, file put/get/delete/move, websocket change feed upgrade), 12 credential forms (none, non-base58, wrong length, legacy dotted, unknown key, D2, D1 over other bytes, another account's device, missing / malformed account header, D1 addressed to account B, valid), access configs none / allow A / allow B / deny A / deny B. Oracle: a request that must be refused is never answered 2xx (or 101 for the websocket upgrade) and leaves every file of the server directory and both accounts' sync status unchanged.",
    note="Requests are sent one at a time; the combined allow+deny configuration is outside the property's quantifier; the websocket upgrade route is not driven; Ed25519 is trusted.",
    technique="explicit-state exploration of (server state x config x route x credential) on the real server; state-unchanged invariant after every refused request",
    design_ref="DESIGN.md §5 C11"),
@@ -106,8 +106,8 @@ CHECKS = {
    technique="explicit-state BFS over real account states with the no-false-alarm invariant at every state, plus exhaustive enumeration of single-byte corruptions and removals of stored content with the report as oracle",
    design_ref="DESIGN.md §5 C16"),
  "C17": dict(engine="filex", level="model_checking",
-   text="(a) Every history up to depth 2 (quick; 3 thorough, both client backends, also from an account that already holds a file secret) over {create file secret (large content in the default folder | small content in the second folder), replace content (update_file), update meta only, move to the other folder, delete secret, delete the second folder, archive} x every live file secret, explored as a tree with directory snapshots; after every step and again after a fresh re-open: directory walk == list_external_files == FileReducer::reduce == reference model, every blob name == hex SHA-256 of its bytes, download_file returns the original content, the secret row's checksum equals the blob name, no stray files. (b) Every maximal history of depth 2 (3 thorough, fs and sqlite worlds, also performed offline before the server is added) through the real sos_net::NetworkAccount on two devices (its own sync and file transfer queue) against a real in-process server, the second device syncing after every step; once transfers settle: the server's directory and file-log replay, the second device's directory, file-log replay and decrypted content all equal the model. (c) Upload inputs against the live server as raw signed PUT requests on a real encrypted blob: the correct body, every single-byte alteration (3 values per position quick / all 255 thorough), truncation at every length, empty, extended bodies, wrong names, connection closed midway (a GET during the stall must not be 2xx), repeated upload; each followed by a correct upload and a byte-exact download; no .upload temp file may remain.",
-   note="Each file encryption / decryption costs about 1 s of CPU (age scrypt), hence the shallow depth. Attachments (file fields of non-file secrets) are not in the alphabet. 'Settled' = no transfer in flight and no notification for 600 ms (10 s horizon); the transfer queue's internal task scheduling is not controlled. The second device shares the first device's device key (as the repository's tests do).",
+   text="(a) Every history up to depth 2 (quick; 3 thorough, both client backends, also from an account that already holds a file secret) over {create file secret (large content in the default folder | small content in the second folder), replace content (update_file), update meta only, move to the other folder, delete secret, delete the second folder, archive} x every live file secret, explored as a tree with directory snapshots; after every step and again after a fresh re-open: directory walk == list_external_files == FileReducer::reduce == reference model, every blob name == hex SHA-256 of its bytes, download_file returns the original content, the secret row's checksum equals the blob name, no stray files. (b) Every maximal history of depth 2 (3 thorough, fs and sqlite worlds, also performed offline before the server is added) through the real sos_net::NetworkAccount on two devices (its own sync and file transfer queue) against a real in-process server, the second device syncing after every step; once transfers settle: the server's directory and file-log replay, the second device's directory, file-log replay and decrypted content all equal the model; a third mode starts with a file secret present on both devices and lets the second device sync only once after the whole history, so that one merged patch carries several events about the same blob (move then delete, move back, replace, delete folder, attach/detach a file field). (c) Upload inputs against the live server as raw signed PUT requests on a real encrypted blob: the correct body, every single-byte alteration (3 values per position quick / all 255 thorough), truncation at every length, empty, extended bodies, wrong names, connection closed midway (a GET during the stall must not be 2xx), repeated upload; each followed by a correct upload and a byte-exact download; no .upload temp file may remain.",
+   note="Each file encryption / decryption costs about 1 s of CPU (age scrypt), hence the shallow depth. At most one file field per secret. 'Settled' = no transfer in flight and no notification for 600 ms (10 s horizon); the transfer queue's internal task scheduling is not controlled. The second device shares the first device's device key (as the repository's tests do).",
    technique="exhaustive enumeration of bounded file-secret operation histories (tree search over real account states, one- and two-device worlds with a real server) and of single-point mutations of upload bodies, against a reference model of the blob set",
    design_ref="DESIGN.md §5 C17"),
  "C20": dict(engine="hist", level="model_checking",
